@@ -293,9 +293,23 @@ class CFG:
         return [i for i, b in enumerate(self.fn.blocks) if b["t"]["k"] == "return" and self.reachable[i]]
 
     def must_pass(self, target, via_edges):
-        """Every entry->target path takes at least one of the edges in via_edges [(a,b)...]."""
+        """Every entry->target path takes at least one of the edges in via_edges [(a,b)...].
+        When the CFG was created through a check context the test is path-sensitive for values that
+        are known along a path (a Result built as Err(..) / by `?` propagation and re-tested later, a
+        bool assigned a constant): needed once helper bodies are spliced into their callers."""
         r = self.reach_from([0], avoid_edges=frozenset(via_edges))
-        return target not in r
+        if target not in r:
+            return True
+        ctx = getattr(self, "_ctx", None)
+        if ctx is None:
+            return False
+        from .guards import Walker
+        w = self.__dict__.get("_walker")
+        if w is None:
+            w = Walker(ctx, self.fn, [])
+            self.__dict__["_walker"] = w
+        r2 = w.reachable({}, 0, frozenset(), frozenset(via_edges))
+        return target not in r2
 
     def must_pass_blocks(self, target, via_blocks):
         if target in via_blocks:
